@@ -64,8 +64,16 @@ BondTypeCls = BuiltinClass('BondType')
 BondCls = BuiltinClass('Bond')
 RingCls = BuiltinClass('Ring')
 RingInfoCls = BuiltinClass('RingInfo')
-BOND_CODES = {'UNSPECIFIED': 0, 'SINGLE': 1, 'DOUBLE': 2, 'TRIPLE': 3, 'QUADRUPLE': 4, 'AROMATIC': 12, 'DATIVE': 17,
-              'OTHER': 21, 'ZERO': 22}
+# the installed RDKit's Chem.BondType.names (probed by probe_bond_codes)
+BOND_CODES = {'UNSPECIFIED': 0, 'SINGLE': 1, 'DOUBLE': 2, 'TRIPLE': 3, 'QUADRUPLE': 4, 'QUINTUPLE': 5, 'HEXTUPLE': 6, 'ONEANDAHALF': 7,
+              'TWOANDAHALF': 8, 'THREEANDAHALF': 9, 'FOURANDAHALF': 10, 'FIVEANDAHALF': 11, 'AROMATIC': 12, 'IONIC': 13, 'HYDROGEN': 14,
+              'THREECENTER': 15, 'DATIVEONE': 16, 'DATIVE': 17, 'DATIVEL': 18, 'DATIVER': 19, 'OTHER': 20, 'ZERO': 21}
+
+
+def probe_bond_codes(tier, seed):
+    from rdkit import Chem
+    real = {k: int(v) for k, v in Chem.BondType.names.items()}
+    return {'name': 'rdkit-bondtype-codes', 'ok': real == BOND_CODES, 'detail': None if real == BOND_CODES else real}
 Rad = z3.Function('NumRadicalElectrons', IS, IS, IS)
 Chg = z3.Function('FormalCharge', IS, IS, IS)
 AInRing = z3.Function('AtomIsInRing', IS, IS, BS)
